@@ -99,3 +99,29 @@ func VH_C05_persist() {
 	rt.Assert(err == ErrClockNotExist, "missing-file-reported")
 	rt.Observe("final", cur)
 }
+
+// VH_C05_interference: MemClock under interference by other threads (they may raise
+// the counter between any two atomic operations of this thread): Witness still ends with
+// the clock at or above both its old value and the witnessed one, Increment returns a
+// value above the old one, and nothing ever lowers the clock.
+func VH_C05_interference() {
+	c0 := rt.NondetUint64()
+	rt.Assume(c0 < 1<<62)
+	mc := NewMemClockWithTime(c0)
+	if rt.Choose(2) == 0 {
+		v := rt.NondetUint64()
+		rt.Assume(v < 1<<62)
+		err := mc.Witness(Time(v))
+		rt.Assert(err == nil, "witness-no-error")
+		now := uint64(mc.counter)
+		rt.Assert(now >= c0, "witness-never-lowers-under-interference")
+		rt.Assert(now >= v, "witness-dominates-seen-under-interference")
+		rt.Cover("witness")
+	} else {
+		t, err := mc.Increment()
+		rt.Assert(err == nil, "increment-no-error")
+		rt.Assert(uint64(t) > c0, "increment-above-old-under-interference")
+		rt.Assert(uint64(mc.counter) >= uint64(t), "clock-not-below-returned-time")
+		rt.Cover("increment")
+	}
+}
